@@ -122,6 +122,13 @@ let run_case (t : string list) : string =
     (match expand_pass_exec (unhex dest) (zs stride) (zs p) (zs line) (zs width) (zs bits) (unhex row) with
      | Some d -> hex d
      | None -> "PANIC invalid pass")
+  | ["encrows"; m; bpp; rowlen; data] ->
+    let rl = int_of_string rowlen in
+    let d = unhex data in
+    let rec split l = if l = [] then [] else (let rec take n l = if n = 0 then ([], l) else (match l with [] -> ([], []) | x :: t -> let (a, b) = take (n - 1) t in (x :: a, b)) in let (a, b) = take rl l in a :: split b) in
+    (match encode_image (fmethod_of_int (int_of_string m)) (nat_of_int (int_of_string bpp)) (nat_of_int rl) (split d) with
+     | Some s -> hex s
+     | None -> "unmodelled")
   | ["writer"; anim; sep; plte; ns] ->
     let c = { animated = (if anim = "-" then None else Some (nat_of_int (int_of_string anim))); sep_def = (sep = "1"); has_plte = (plte = "1"); anc_before = O; anc_after = O } in
     let l = emitted c (List.map (fun x -> nat_of_int (int_of_string x)) (String.split_on_char ',' ns)) in
